@@ -37,7 +37,7 @@ fn gen_fields(r: &mut Rng, tier: &str, small: bool) -> String {
         let n = if small { gen_payload_len(r, tier, 1472).min(48) } else { gen_payload_len(r, tier, 9000) };
         format!("kind={} ident={} seq={} data={}", kind, gen_u16(r), gen_u16(r), hex(&gen_payload(r, n)))
     } else {
-        let reason = if r.chance(1, 2) { r.below(if kind == 2 { 16 } else { 2 }) as u8 } else { gen_u8(r) };
+        let reason = if kind == 2 { draw_raw::<Icmpv4DstUnreachable>(r) } else { draw_raw::<Icmpv4TimeExceeded>(r) } as u8;
         let n = if r.chance(1, 3) { r.range(8, if small { 48 } else { 528 }) as usize } else { *r.pick(&[8usize, 9, 16, 28]) };
         let n = if !small && r.chance(1, 6) { *r.pick(&[527usize, 528, 548, 1472]) } else { n };
         format!(
@@ -46,7 +46,7 @@ fn gen_fields(r: &mut Rng, tier: &str, small: bool) -> String {
             reason,
             hex(&gen_ipv4(r)),
             hex(&gen_ipv4(r)),
-            *r.pick(&[1u8, 6, 17, 0, 255, 58]),
+            draw_raw::<IpProtocol>(r) as u8,
             n,
             gen_u8(r),
             hex(&gen_payload(r, n))
@@ -56,12 +56,12 @@ fn gen_fields(r: &mut Rng, tier: &str, small: bool) -> String {
 
 fn with_repr<T>(kv: &Kv, f: impl FnOnce(Icmpv4Repr) -> T) -> T {
     let data = kv.b("data");
-    let hdr = |kv: &Kv| Ipv4Repr { src_addr: a4(&kv.b("hsrc")), dst_addr: a4(&kv.b("hdst")), next_header: IpProtocol::from(kv.u("hproto") as u8), payload_len: kv.u("hplen") as usize, hop_limit: kv.u("hhop") as u8 };
+    let hdr = |kv: &Kv| Ipv4Repr { src_addr: a4(&kv.b("hsrc")), dst_addr: a4(&kv.b("hdst")), next_header: of_raw::<IpProtocol>((kv.u("hproto") as u8) as u32), payload_len: kv.u("hplen") as usize, hop_limit: kv.u("hhop") as u8 };
     let repr = match kv.u("kind") {
         0 => Icmpv4Repr::EchoRequest { ident: kv.u("ident") as u16, seq_no: kv.u("seq") as u16, data: &data },
         1 => Icmpv4Repr::EchoReply { ident: kv.u("ident") as u16, seq_no: kv.u("seq") as u16, data: &data },
-        2 => Icmpv4Repr::DstUnreachable { reason: Icmpv4DstUnreachable::from(kv.u("reason") as u8), header: hdr(kv), data: &data },
-        _ => Icmpv4Repr::TimeExceeded { reason: Icmpv4TimeExceeded::from(kv.u("reason") as u8), header: hdr(kv), data: &data },
+        2 => Icmpv4Repr::DstUnreachable { reason: of_raw::<Icmpv4DstUnreachable>((kv.u("reason") as u8) as u32), header: hdr(kv), data: &data },
+        _ => Icmpv4Repr::TimeExceeded { reason: of_raw::<Icmpv4TimeExceeded>((kv.u("reason") as u8) as u32), header: hdr(kv), data: &data },
     };
     f(repr)
 }
